@@ -391,7 +391,7 @@ func drive() {
 
 func main() {
 	if len(os.Args) < 2 {
-		fmt.Fprintln(os.Stderr, "usage: datascope drive|gen <cases>|oracle <n>|facts <repo>")
+		fmt.Fprintln(os.Stderr, "usage: datascope drive|gen <cases>|oracle <n>|facts <repo>|users <repo>")
 		os.Exit(2)
 	}
 	arg := func(i, def int) int {
@@ -415,6 +415,12 @@ func main() {
 			repo = os.Args[2]
 		}
 		facts(repo)
+	case "users": // the users of the get-or-create idiom with their positions (for the evidence file)
+		repo := "/repo"
+		if len(os.Args) > 2 {
+			repo = os.Args[2]
+		}
+		idiomFacts(repo, true)
 	default:
 		fmt.Fprintln(os.Stderr, "unknown subcommand", os.Args[1])
 		os.Exit(2)
